@@ -71,8 +71,16 @@ def finder(ctx, n):
     rng = ctx.rng
     tol = 1e-8
     for i in range(n):
-        kind = i % 3
-        if kind == 0:
+        kind = i % 4
+        if kind == 3:
+            # a lattice defined by base vectors and then updated through one cell parameter
+            B = latlive.rand_base(rng)
+            L = Lattice(base=B)
+            p = rng.choice(["a", "b", "c"])
+            setattr(L, p, getattr(L, p) * rng.choice([0.5, 1.5, 2.0]))
+            cell = L.abcABG()
+            case = {"base": B.tolist(), "then": "scale " + p}
+        elif kind == 0:
             cell = latlive.rand_cell(rng)
             L = Lattice(*cell)
             case = {"cell": cell}
@@ -96,7 +104,7 @@ def finder(ctx, n):
         angs = [euclid_angle(B[1], B[2]), euclid_angle(B[0], B[2]), euclid_angle(B[0], B[1])]
         if not numpy.allclose(angs, [al, be, ga], atol=1e-6):
             probs.append("base vector angles %s vs %s" % (angs, (al, be, ga)))
-        if kind != 2 and not numpy.allclose((a, b, c, al, be, ga), cell, rtol=1e-12):
+        if kind in (0, 1) and not numpy.allclose((a, b, c, al, be, ga), cell, rtol=1e-12):
             probs.append("abcABG() %s differs from the constructor arguments %s" % ((a, b, c, al, be, ga), cell))
         if not numpy.allclose(L.metrics, B @ B.T, rtol=tol, atol=1e-9):
             probs.append("metrics is not the Gram matrix of base")
